@@ -52,6 +52,8 @@ var c15Globs = []string{
 	"a*.yml",                    // only matches when the path is (wrongly) taken relative to .github/workflows
 	"*/.github/workflows/*.yml", // only matches when the path is (wrongly) taken relative to the parent of the repository
 	"{.github,other}/workflows/[ab]*.yml",
+	"./.github/workflows/*.yml", // "./" is an element of its own to the matcher: a repository-relative path never has it
+	"./**/*.yml",
 }
 
 var c15Ignores = []string{
@@ -75,6 +77,9 @@ var c15Ignores = []string{
 	" is",  // white space at the edge of a pattern is part of the pattern
 	"label ",
 	"unknown\\. ",
+	"^is unknown$", // literal text anchored at both ends: matches only a message that IS that text, so none
+	"^label$",
+	"^missing$",
 }
 
 func genC15Config(c *Chooser) (cfg string, entries map[string][]string, order []string) {
